@@ -363,6 +363,9 @@ def struct_eq(ex, st, a, b, ty, depth=0):
     if h == 'Option':
         it = inner_ty(ty)
         da, db = ex.discr_of(st, a, ty).t, ex.discr_of(st, b, ty).t
+        for d_ in (z3.simplify(da), z3.simplify(db)):
+            if z3.is_int_value(d_) and d_.as_long() == 0:
+                return da == db         # a literal None: nothing to compare below the discriminant
         pa, pb = payload(ex, st, a, 1, 0, it), payload(ex, st, b, 1, 0, it)
         return z3.And(da == db, z3.Implies(da == 1, struct_eq(ex, st, pa, pb, it, depth + 1)))
     if h == 'Duration':
@@ -509,7 +512,12 @@ def vec_len(ex, st, v):
             return v.meta[1]
         if v.origin is not None:
             shape = ex.cfg.get('shape')
-            n = shape(v.origin, v.ty or '') if shape else None
+            n = None
+            if shape:
+                try:
+                    n = shape(v.origin, v.ty or '', st, ex)
+                except TypeError:
+                    n = shape(v.origin, v.ty or '')
             if n is None:
                 raise Inconclusive('no shape configured for collection %s : %s' % (v.origin, v.ty))
             return n
@@ -656,6 +664,16 @@ def m_iter_cloned(ex, st, args, dty, canon):
     return it('cloned', args[0])
 
 
+@pattern(r'^(std::|core::)?iter::once::<.*>$|^once::<.*>$')
+def m_iter_once(ex, st, args, dty, canon):
+    return it('val', (args[0],), 0)
+
+
+@pattern(r'^<.* as Iterator>::chain(::<.*>)?$')
+def m_iter_chain(ex, st, args, dty, canon):
+    return it('chain', _iter_arg(ex, st, args[0]), _iter_arg(ex, st, args[1]))
+
+
 @pattern(r'^<.* as Iterator>::enumerate$')
 def m_iter_enumerate(ex, st, args, dty, canon):
     return it('enumerate', args[0], 0)
@@ -680,6 +698,18 @@ def iter_next(ex, st, itv, cont):
         def c1(ex2, s2, ni, item):
             return cont(ex2, s2, it('cloned', ni), None if item is None else deref(ex2, s2, item))
         return iter_next(ex, st, itv.data[1], c1)
+    if k == 'chain':
+        a, b = itv.data[1], itv.data[2]
+        if a is None:
+            def cb(ex2, s2, nb, item):
+                return cont(ex2, s2, it('chain', None, nb), item)
+            return iter_next(ex, st, b, cb)
+
+        def ca(ex2, s2, na, item):
+            if item is None:
+                return iter_next(ex2, s2, it('chain', None, b), cont)
+            return cont(ex2, s2, it('chain', na, b), item)
+        return iter_next(ex, st, a, ca)
     if k == 'enumerate':
         idx = itv.data[2]
 
@@ -888,6 +918,22 @@ def m_iter_fold(ex, st, args, dty, canon):
 
 
 # maps (association lists) ------------------------------------------------
+
+@pattern(r'^<&?(std::collections::)?(HashMap|BTreeMap)(<.*>)? as PartialEq>::(eq|ne)$')
+def m_map_eq(ex, st, args, dty, canon):
+    """two maps: the same value -> equal; two distinct arbitrary (never inspected) maps -> a free input bit,
+    named by the pair so that it is the same answer every time on a path"""
+    a = deref_all(ex, st, args[0])
+    b = deref_all(ex, st, args[1])
+    if ex.veq(a, b):
+        e = z3.BoolVal(True)
+    elif isinstance(a, Tree) and isinstance(b, Tree) and a.origin and b.origin and not a.f and not b.f:
+        x, y = sorted((a.origin, b.origin))
+        e = z3.Bool('mapeq!%s!%s' % (x, y))
+    else:
+        raise Inconclusive('map equality on %r / %r' % (a, b))
+    return Sc(e if canon[3] == 'eq' else z3.Not(e), 'bool')
+
 
 @pattern(r'^HashMap::<.*>::get::<.*>$|^HashMap::<.*>::get$')
 def m_map_get(ex, st, args, dty, canon):
@@ -1157,6 +1203,13 @@ def _pend_count(st, key):
     return st.extra.get(('pend', key), 0)
 
 
+def _pend_policy(ex, st, name, key):
+    """exploration plans may pin a pendable future: 'fire' (completes when first polled), 'pend' (never
+    completes within the explored window) or 'both' (default: either, pending at most max_pending times)"""
+    f = ex.cfg.get('pend_policy')
+    return f(st, name, key) if f else 'both'
+
+
 def pendable(ex, name):
     f = ex.cfg.get('pendable')
     return bool(f and f(name))
@@ -1352,8 +1405,9 @@ def poll2(ex, st, fv, fptr, cx, cont, out_ty=None):
             name, val = fv.data[1], fv.data[2]
             key = name
             n = _pend_count(st, key)
-            alts = [(None, lambda s: (cont(ex, s, ready(val)), NOTHING)[1])]
-            if n < ex.cfg.get('max_pending', 1):
+            pol = _pend_policy(ex, st, name, key)
+            alts = [(None, lambda s: (cont(ex, s, ready(val)), NOTHING)[1])] if pol != 'pend' else []
+            if (n < ex.cfg.get('max_pending', 1) and pol != 'fire') or pol == 'pend':
                 def pend(s):
                     s.extra[('pend', key)] = n + 1
                     cont(ex, s, pending())
@@ -1374,8 +1428,9 @@ def poll2(ex, st, fv, fptr, cx, cont, out_ty=None):
                 s.extra[('firedat', key)] = len(s.trace)
                 poll_value(ex, s, fv, fptr, cx, cont, out_ty)
                 return NOTHING
-            alts = [(None, fire)]
-            if n < ex.cfg.get('max_pending', 1):
+            pol = _pend_policy(ex, st, name, key)
+            alts = [(None, fire)] if pol != 'pend' else []
+            if (n < ex.cfg.get('max_pending', 1) and pol != 'fire') or pol == 'pend':
                 def pend(s):
                     s.extra[('pend', key)] = n + 1
                     cont(ex, s, pending())
@@ -1509,8 +1564,17 @@ def m_str_split_char(ex, st, args, dty, canon):
     sep = z3.simplify(args[1].t)
     n = len(bs)
     alts = []
+    # positions that can / cannot hold the separator under the path condition (prunes the mask product)
+    opts = []
+    for i in range(n):
+        o_ = []
+        if ex.check(st, [bs[i] != sep]) == 'sat':
+            o_.append(False)
+        if ex.check(st, [bs[i] == sep]) == 'sat':
+            o_.append(True)
+        opts.append(tuple(o_))
     for L in range(n + 1):
-        for mask in itertools.product((False, True), repeat=L):
+        for mask in itertools.product(*opts[:L]):
             cond = z3.And(ln == L, *[(bs[i] == sep) == z3.BoolVal(mask[i]) for i in range(L)])
 
             def mk(L=L, mask=mask):
@@ -1564,3 +1628,48 @@ def m_header_name_as_str(ex, st, args, dty, canon):
     v = deref_all(ex, st, args[0])
     nm = v.data if isinstance(v, Obj) and v.kind == 'fnitem' else 'header'
     return Sc(z3.StringVal('<%s>' % nm.split('::')[-1].lower().replace('_', '-')), 'str')
+
+
+@pattern(r'^Vec::<.*>::swap_remove$')
+def m_vec_swap_remove(ex, st, args, dty, canon):
+    p = as_ptr(ex, st, args[0], 'Vec::swap_remove')
+    v = deref(ex, st, p)
+    items = vec_items(ex, st, v)
+    idx = z3.simplify(args[1].t)
+    if not z3.is_int_value(idx):
+        raise Inconclusive('Vec::swap_remove with symbolic index')
+    i = idx.as_long()
+    if i >= len(items):
+        st.status = 'panic'
+        st.info = 'Vec::swap_remove index %d out of bounds (len %d)' % (i, len(items))
+        return NOTHING
+    it_ = items[i]
+    rest = list(items)
+    rest[i] = rest[-1]
+    rest.pop()
+    ex.store(st, p.cell, [(k, None) for k in p.path], mk_vec(rest, v.ty))
+    return it_
+
+
+@pattern(r'^Vec::<.*>::pop$')
+def m_vec_pop(ex, st, args, dty, canon):
+    p = as_ptr(ex, st, args[0], 'Vec::pop')
+    v = deref(ex, st, p)
+    items = vec_items(ex, st, v)
+    if not items:
+        return none()
+    ex.store(st, p.cell, [(k, None) for k in p.path], mk_vec(items[:-1], v.ty))
+    return some(items[-1])
+
+
+@pattern(r'^Vec::<.*>::insert$')
+def m_vec_insert(ex, st, args, dty, canon):
+    p = as_ptr(ex, st, args[0], 'Vec::insert')
+    v = deref(ex, st, p)
+    items = vec_items(ex, st, v)
+    idx = z3.simplify(args[1].t)
+    if not z3.is_int_value(idx) or idx.as_long() > len(items):
+        raise Inconclusive('Vec::insert index')
+    i = idx.as_long()
+    ex.store(st, p.cell, [(k, None) for k in p.path], mk_vec(items[:i] + [args[2]] + items[i:], v.ty))
+    return UNIT
